@@ -34,6 +34,14 @@ CHECKS = {
     "C14": ("records", REC_TXT % ("PCScale / PCConfig", "UpdateProject on a live runner (sequences of up to 3 updates) and ProcessConfig.Compare on pairs differing in known fields", "C14_* (set equals new, unchanged keep their instance, changed are terminated before the new instance is launched with the new argv/env/dir, removed gone, added launched, status map exact, change detection of every launch-relevant field)"), REC_NOTE),
     "C11": ("records", "Real commands (bash) run through the real output pipeline (pipes -> reader goroutines -> log buffer / logger -> file); every written line carries a unique id; TLC evaluates C11_AllLinesOnceInOrder / C11_FileComplete (PCOutput) on every run record; the design model of the pipe / reader / Wait protocol is explored exhaustively (and shows the loss when a reader is not waited for).", REC_NOTE + " Real processes: the OS schedules them, instants are sampled not enumerated."),
     "C19": ("records", REC_TXT % ("PCApi (a refinement statement: each route is the corresponding runner operation)", "gin router (api.InitRoutes) over a recording decorator around the real runner, raw HTTP requests and the bundled client", "C19_* (never 5xx, still serving, same operation, invalid is 4xx, error is 4xx with the runner's message, same result, client decodes the same value / error)"), REC_NOTE),
+    "C20": ("records", "Every pair (and seeded triples) of API operations {state, states, project state, log range, log subscribe/unsubscribe, start, stop, restart, scale, update, info} "
+            "runs concurrently for 250 ms against a live runner (scripted commanders whose processes exit, restart and log), each batch in its own OS process; "
+            "TLC evaluates C20_NoCrash / C20_EveryCallReturns (PCConcRec) on every batch record (recovered panics, fatal runtime errors such as concurrent map access, "
+            "calls in flight for more than 10 s, a shutdown or Run() that does not return, with the sites the goroutines are parked at). The lock / wait structure of the "
+            "operations (PCConc) is explored exhaustively with TLC's deadlock detection, and the code-shaped life-cycle model with two overlapping, non-serialised API calls "
+            "(PCLifecycle_manualconc.cfg, 65 M states, run by C08's thorough tier) satisfies every life-cycle invariant.",
+            REC_NOTE + " The data-race half of the property (races without a crash or deadlock consequence) is NOT decided: the technique observes executions, "
+            "not memory accesses (DESIGN.md section 7). Schedules are sampled (250 ms of free-running goroutines per batch), not enumerated."),
     "C18": ("records", "Operation histories of the real pclog.ProcessLogBuffer (exhaustive (offset, limit) grids on small logs and around the trim boundary; a writer concurrent with subscribers; stalled follower) validated by TLC against PCLogBuffer / PCLogBufferTrace (C18_Recent, C18_RangeWindow, C18_FollowerNoGapNoDup, C18_StalledFollowerDoesNotBlock); the design model is explored exhaustively for small constants.", REC_NOTE),
 }
 try:
